@@ -224,6 +224,13 @@ ENVCASES = [
     ('home-unset-default-conf', ['-n'], {'HOME': None}, {'fopen': PWDIR + '/.mdsort.conf', 'status': 1}),
     ('home-empty-default-conf', ['-n'], {'HOME': ''}, {'fopen': PWDIR + '/.mdsort.conf', 'status': 1}),
     ('home-unset-f', ['-f', R + '/conf'], {'HOME': None}, {'same': True}),
+    # a user without password entry: HOME is the only source (the run is started under a numeric uid that has no entry; root only)
+    ('home-unset-no-passwd-entry', ['-n', '-f', R + '/conf'], {'HOME': None}, {'nopw': True, 'early': 'cannot find home directory'}),
+    ('home-empty-no-passwd-entry', ['-f', R + '/conf', '-'], {'HOME': ''}, {'nopw': True, 'early': 'cannot find home directory'}),
+    ('home-set-no-passwd-entry', ['-n', '-f', R + '/conf'], {}, {'nopw': True, 'status': 0}),
+    # readenv cuts the host name at its first dot: generated names are the same as with the short name
+    ('hostname-with-domain', ['-f', R + '/conf'], {'VSHIM_HOST': 'host.example.org'}, {'same': True}),
+    ('hostname-with-domain-stdin', ['-f', R + '/conf', '-'], {'VSHIM_HOST': 'host.example.org'}, {'delivered': True, 'status': 0, 'names': r'^1790000000\.4242_\d+\.host(:2,[A-Za-z]*)?$'}),
     ('tmpdir-unset-stdin', ['-f', R + '/conf', '-'], {'TMPDIR': None, 'VSHIM_TMPNAMES': '0'}, {'spool': '@TMP@', 'delivered': True, 'status': 0}),
     ('tmpdir-empty-stdin', ['-f', R + '/conf', '-'], {'TMPDIR': '', 'VSHIM_TMPNAMES': '0'}, {'spool': '@TMP@', 'delivered': True, 'status': 0}),
     ('tmpdir-unset-stdin-dry', ['-d', '-f', R + '/conf', '-'], {'TMPDIR': None, 'VSHIM_TMPNAMES': '0'}, {'spool': '@TMP@', 'status': 0}),
@@ -267,6 +274,10 @@ def check_expect(exp, r, calls, root, PW, PTMP, plain):
         got = [k for k, v in r.final.items() if k.startswith('dst2/new/') and v[0] == 'file' and ws.msg_id(v[1]) == 5]
         if len(got) != 1:
             out.append('the message on standard input is not in dst2/new: %r' % sorted(k for k in r.final if k.startswith('dst'))[:6])
+    if 'names' in exp:
+        bad = [k for k in r.final if k.startswith('dst2/new/') and not re.match(exp['names'], k.rsplit('/', 1)[1])]
+        if bad:
+            out.append('generated names %r do not have the form %s' % (bad[:3], exp['names']))
     if exp.get('same') and plain is not None and (r.status != plain[0] or tree_sig(r.final) != plain[1]):
         out.append('exit status / final tree differ from the run with the plain environment (exit %r / %r)' % (r.status, plain[0]))
     return out
@@ -309,7 +320,25 @@ def one_case(tools, W, name, argv, envx, PW, PTMP, expect=None):
         rargv = [a.replace(R, root) for a in argv]
         posix = 'POSIXLY_CORRECT' in envx and envx['POSIXLY_CORRECT'] is not None
         before = tree_sig(scen.initial)
-        r = scen.run(argv=rargv)
+        uid = None
+        if expect and expect.get('nopw'):
+            uid = 54321
+            while True:
+                try:
+                    pwd.getpwuid(uid)
+                    uid += 1
+                except KeyError:
+                    break
+            PW = None
+        # (looking up a uid that has no entry makes the C library itself search files and sockets: those calls are not mdsort's, so that run is not traced)
+        r = scen.run(argv=rargv, uid=uid, trace=uid is None or bool(envx.get('HOME', 'set')))
+        if vlib.COV_OUT:
+            # measurement runs of tools/cov.py only: the shim stops tracing at exit from its first traced call on; a run that ends before
+            # any call leaves the exit-time file traffic of the coverage runtime in its trace
+            for i_, t_ in enumerate(r.trace):
+                if t_['kind'] == 'call' and t_['name'] == 'open' and t_['args'].get('path', '').endswith('.gcda'):
+                    r.trace = r.trace[:i_]
+                    break
         problems = []
         ref = reference(rargv, posix)
         real = classify_real(r.status, r.err)
@@ -430,6 +459,8 @@ def stage(rep, sc, tools, W=None, rng=None, accepted_only=False):
         if 'default-conf' in name and PW is not None and os.path.exists(PW + '/.mdsort.conf'):
             continue                       # never run somebody's real configuration
         if 'tilde' in name and PW is not None and os.path.exists(os.path.join(PW, ABSENT)):
+            continue
+        if expect.get('nopw') and os.getuid() != 0:
             continue
         cases.append(('env-' + name, argv, envx, expect))
     if accepted_only:
